@@ -82,18 +82,26 @@ def run(c):
         one = np.ones((1, 1), np.float32)
         rp = PixelRenderer((N, N), jnp.array(one), os_pixel_size=N // 2, num_os=16)
         imu = np.asarray(rp.render_source(p, "sersic"), np.float64)
-        osn = 9
+        # apportion each pixel's (implementation) flux between inside / outside the ellipse by the sub-pixel
+        # distribution of the reference profile: a plain area-coverage weight assumes the light is uniform
+        # within a pixel and under-estimates the enclosed light by ~2 % for minor axes of 1-2 px (false alarm
+        # seen at n=0.85, r_eff=3.0, ellip=0.46: 0.479 instead of 0.497)
+        osn = 15
         off = (np.arange(osn) + 0.5) / osn - 0.5
         cols, rows = np.meshgrid(np.arange(N), np.arange(N))
-        cov = np.zeros((N, N))
+        num = np.zeros((N, N))
+        den = np.zeros((N, N))
         t = p["theta"]
         for a in off:
             for b in off:
                 dx, dy = cols + a - p["xc"], rows + b - p["yc"]
                 u = -dx * np.sin(t) + dy * np.cos(t)
                 v = dx * np.cos(t) + dy * np.sin(t)
-                cov += (np.sqrt(u ** 2 + (v / (1 - p["ellip"])) ** 2) <= p["r_eff"])
-        cov /= osn * osn
+                inside = (np.sqrt(u ** 2 + (v / (1 - p["ellip"])) ** 2) <= p["r_eff"])
+                sb = RR.sersic_sb(cols + a, rows + b, p)
+                num += inside * sb
+                den += sb
+        cov = np.where(den > 0, num / np.where(den > 0, den, 1.0), 0.0)
         frac = float((imu * cov).sum() / p["flux"])
         out["half_light"] = frac
         if abs(frac - 0.5) > 0.02:
